@@ -105,7 +105,9 @@ def pt_spec(pt, s):
             for fname, m in s[1]:
                 anns[fname] = abi.Field[pt_spec(pt, m).annotation_type()]
             _NT_COUNTER[0] += 1
-            cls = type("NT%d" % _NT_COUNTER[0], (abi.NamedTuple,), {"__annotations__": anns})
+            # all generated classes deliberately share one name/qualname (distinct classes, same spelling - what a
+            # class factory in user code produces); identity, not the name, must decide type-spec equality
+            cls = type("NT", (abi.NamedTuple,), {"__annotations__": anns})
             _NT_CACHE[key] = cls
         return cls().type_spec()
     raise ValueError(s)
